@@ -160,6 +160,9 @@ class BuiltinMixin:
       return VDict(dict(k))
     if len(a) == 1 and isinstance(a[0], VDict):
       return VDict(dict(a[0].d, **k))
+    if len(a) == 1 and isinstance(a[0], VMap) and not k:      # shallow copy: a new map holding the SAME value objects
+      m = a[0]
+      return VMap(m.has, m.val, m.ksort, m.vkind, m.none, m.stamp, m.clock, m.size)
     raise Unsupported(f'dict({type(a[0]).__name__})')
 
   def bi_slice(self, it, a, k):
@@ -484,6 +487,28 @@ class BuiltinMixin:
       return VObj(v.cls, dict(v.f), v.frozen, v.types, tag=self.path.fresh_name(v.tag + "'"))
     return v
 
+  def lib_copy_deepcopy(self, it, a, k):
+    """copy.deepcopy (A2) of maps / lists of opaque mutable objects and of such objects: every object is replaced by a
+    NEW object `deep_copy_of(x)` (distinct from x) that carries the same abstract value; containers are new too."""
+    v = self.unopt(a[0])
+    j = z3.Int(self.path.fresh_name('j'))
+    x = z3.Const(self.path.fresh_name('x'), Obj)
+    self.assume(z3.ForAll([x], deepcopy_fn(x) != x))
+    if isinstance(v, VOpaque):
+      return VOpaque(deepcopy_fn(v.t))
+    if isinstance(v, (VSeq, VMList)):
+      s_ = v.seq if isinstance(v, VMList) else v
+      if s_.kind != 'obj':
+        return VMList(s_) if isinstance(v, VMList) else s_
+      r = VSeq(z3.Lambda([j], deepcopy_fn(z3.Select(s_.arr, j))), s_.n, 'obj')
+      return VMList(r) if isinstance(v, VMList) else r
+    if isinstance(v, VMap) and v.val.sort().range() == Obj and v.none is None and v.stamp is None:
+      kk = z3.Const(self.path.fresh_name('k'), v.ksort)
+      return VMap(v.has, z3.Lambda([kk], deepcopy_fn(z3.Select(v.val, kk))), v.ksort, v.vkind, size=v.size)
+    if isinstance(v, VNoneT):
+      return v
+    raise Unsupported(f'deepcopy of {type(v).__name__}')
+
   def lib_collections_deque(self, it, a, k):
     kind = self.reg.default_elem_kind
     return VMList(VSeq(z3.K(z3.IntSort(), _default(kind)), z3.IntVal(0), kind), is_deque=True)
@@ -500,6 +525,7 @@ class BuiltinMixin:
 
 
 _SLICE_OF = z3.Function('slice_of', Obj, z3.IntSort(), z3.IntSort(), Obj)
+deepcopy_fn = z3.Function('deep_copy_of', Obj, Obj)        # ghost: the new object copy.deepcopy makes of a mutable object
 fn_raises = z3.Function('fn_raises', Obj, Obj, z3.BoolSort())     # ghost: the callable raises on this argument
 
 
